@@ -9,7 +9,7 @@
    Proofs/WritersDict.v: wf_db (keys, field names, roles unique up to case; every role has a person -- what the API
    builds), map_ids.  Proofs/WritersTree.v: parts_ok p := reparse_person p = Ok p, yaml_ok, xml_ok. *)
 From Pybtex Require Import Base.Prelude Base.PyChar Base.PyStr Model.BibtexStr Model.Names Model.Scanner Model.BibParser Model.Writers
-  Proofs.Writers Proofs.WritersDict Proofs.WritersTree Proofs.WritersQuote Proofs.WritersPerson Proofs.WritersChain Proofs.WritersField Proofs.WritersName Proofs.WritersBib Proofs.WritersNameList Proofs.WritersBibP Proofs.WritersTokens Proofs.WritersName0 Proofs.WritersBool.
+  Proofs.Writers Proofs.WritersDict Proofs.WritersTree Proofs.WritersQuote Proofs.WritersPerson Proofs.WritersChain Proofs.WritersField Proofs.WritersName Proofs.WritersBib Proofs.WritersNameList Proofs.WritersBibP Proofs.WritersTokens Proofs.WritersName0 Proofs.WritersBool Proofs.WritersNameG.
 
 (* ---- identifier lower-casing changes nothing but the letter case of keys, entry types, field names, roles *)
 Theorem lower_only_case : forall d, wf_db d -> lower_db d = Ok (map_ids lower d).
@@ -392,3 +392,19 @@ Example ex_checked : bibp_okb ex_db = true /\ allp_okb ex_db_nofirst = true /\ a
   bibp_okb (one_field_db (s2l "100%")) = false /\ bibp_okb (person_db and_person) = false /\
   bibp_okb (person_db comma_person) = false /\ bibp_okb (one_field_db (s2l "a  b")) = false /\ allp_okb (field_db k_type (s2l "T")) = false.
 Proof. repeat split; vm_compute; reflexivity. Qed.
+
+(* ---- bibtex_name_roundtrip for GENERAL tokens (comma forms): [expressibleG] (Proofs/WritersNameG.v) is [expressible]
+   with tokens that are any non-empty string with every brace closed, no leading / trailing whitespace, no separator
+   at brace level 0 (whitespace, unescaped tie, backslash before a space; cf. person_parts_roundtrip) and no comma at
+   brace level 0 ([gtok]; computable form [gtokb]): braced groups ("{Barnes and Noble, Inc.}"), special characters
+   ({\"O}zt{\"u}rk), commas and "and" inside braces are all allowed.  Through the C04 builder's comma_split_spec and
+   tokenizer_spec_all.  Still partial: exactly one first-name token (the no-first-name form is proved for plain tokens
+   only: bibtex_name_roundtrip_nofirst_partial); at FILE level names must be lists of words (no spaces inside tokens),
+   so braced tokens with spaces are not covered by bibtex_roundtrip_persons_partial. *)
+Theorem bibtex_name_roundtrip_general_partial : forall p, expressibleG p -> person_of_string (format_name p) = Ok (p, false).
+Proof. exact bibtex_name_roundtripG_pf. Qed.
+Print Assumptions bibtex_name_roundtrip_general_partial.
+
+Example ex_expressibleG : expressibleG braced_name /\
+  format_name braced_name = s2l "de {\'e}a {\""O}zt{\""u}rk {Barnes and Noble, Inc.}, Jr., A. {B C}".
+Proof. split; [exact braced_name_ok|vm_compute; reflexivity]. Qed.
